@@ -652,7 +652,11 @@ func (rm RoundingMode) round(shift, neg bool, sig uint128, exp int16, trunc int8
 				}
 			}
 		case ToNearestAway:
-			if digit >= 5 {
+			if trunc == -1 {
+				if digit > 5 {
+					adjust = 1
+				}
+			} else if digit >= 5 {
 				adjust = 1
 			}
 		case ToZero:
